@@ -923,7 +923,9 @@ def random_rows(schema, nmax, rng, tp: Template):
                 row[c] = rng.choice([-2.5, -1.0, -0.25, 0.0, 0.5, 1.5, 2.0, 3.75])
             elif ty == DATE:
                 row[c] = K.days_to_date(rng.choice([-3653, -1, 0, 1, 59, 10956, 11016, 11017, 18266, 18267, 19782, 47481]))
-            elif ty == DT:
+            elif ty == K.DT_MS:
+                row[c] = K.us_to_dt(rng.choice([-3653, -1, 0, 11016, 18266]) * K.US_DAY + rng.choice([0, 1000, 123_000, 999_000, 3_723_004_000, 86_399_999_000]))
+            elif ty in (DT, K.DT_NS):
                 row[c] = K.us_to_dt(rng.choice([-3653, -1, 0, 11016, 18266, 18267]) * K.US_DAY + rng.choice([0, 0, 1, 999_999, 1_000_000, 3_723_000_004, 43_200_000_000, 86_399_999_999]))
             else:
                 row[c] = "".join(rng.choice(alpha) for _ in range(rng.randint(0, tp.str_len or 3)))
